@@ -147,6 +147,16 @@ pub mod unit {
             ResourceConstraintsError::ResourceConstraintFailed { resource_address: r, error: c })))
     }
 
+    /// the (resource, id) reported by an AssertionFailed(ResourceConstraintFailed { NonFungibleMissing }) error
+    pub open spec fn missing_of(e: RuntimeError) -> Option<(ResourceAddress, Id)> {
+        match e {
+            RuntimeError::ApplicationError(ApplicationError::WorktopError(WorktopError::AssertionFailed(
+                ResourceConstraintsError::ResourceConstraintFailed { resource_address, error: ResourceConstraintError::NonFungibleMissing { missing_id } }))) =>
+                Some((resource_address, missing_id)),
+            _ => None,
+        }
+    }
+
     /// A bucket `b` of resource `r` has left the worktop (take / take_non_fungibles / take_all).
     /// Nothing vanishes, nothing is duplicated:
     pub open spec fn took(w0: WMap, h0: Buckets, w1: WMap, h1: Buckets, r: ResourceAddress, b: Own) -> bool {
@@ -159,12 +169,251 @@ pub mod unit {
         &&& w1.remove(r) =~= w0.remove(r)
         &&& (w1.contains_key(r) ==> w0.contains_key(r) && w1[r] == w0[r])
         // ... and every bucket other than the returned one and r's worktop bucket
-        &&& forall|o: Own| o != b && !(w0.contains_key(r) && o == w0[r]) ==> (h1.contains_key(o) == h0.contains_key(o) && h1[o] == h0[o])
+        &&& frame2(h0, h1, b, if w0.contains_key(r) { w0[r] } else { b })
         // the returned bucket is NEW, or it is r's former worktop bucket, which is then off the worktop and untouched
         &&& (!h0.contains_key(b) || (w0.contains_key(r) && b == w0[r] && !w1.contains_key(r) && h1 == h0))
     }
 
+    // ---- FieldSubstate (radix-engine/src/system/system_substates.rs), used by `drop` ----------------
+    impl<V> FieldSubstate<V> {
+        /*@fn radix-engine/src/system/system_substates.rs :: impl<V> FieldSubstate<V> :: fn new_field
+        @sig
+            ensures ret == (FieldSubstate::V1(FieldSubstateV1 { payload, lock_status }))
+        @*/
+        /*@fn radix-engine/src/system/system_substates.rs :: impl<V> FieldSubstate<V> :: fn new_unlocked_field
+        @sig
+            ensures ret == (FieldSubstate::V1(FieldSubstateV1 { payload, lock_status: LockStatus::Unlocked }))
+        @*/
+        /*@fn radix-engine/src/system/system_substates.rs :: impl<V> FieldSubstate<V> :: fn into_payload
+        @sig
+            ensures self matches FieldSubstate::V1(x) && ret == x.payload
+        @*/
+    }
+
+    // ---- frame lemmas --------------------------------------------------------------------------
+    pub proof fn lemma_frame2(h0: Buckets, h1: Buckets, a: Own, b: Own, o: Own)
+        requires frame2(h0, h1, a, b), o != a, o != b
+        ensures h1.contains_key(o) == h0.contains_key(o), h1[o] == h0[o]
+    {
+        assert(h1.remove(a).remove(b).contains_key(o) == h1.contains_key(o));
+        assert(h0.remove(a).remove(b).contains_key(o) == h0.contains_key(o));
+        assert(h1.remove(a).remove(b)[o] == h1[o]);
+        assert(h0.remove(a).remove(b)[o] == h0[o]);
+    }
+    pub proof fn lemma_frame2_sym(h0: Buckets, h1: Buckets, a: Own, b: Own)
+        requires frame2(h0, h1, a, b)
+        ensures frame2(h0, h1, b, a)
+    {
+        assert(h1.remove(b).remove(a) =~= h1.remove(a).remove(b));
+        assert(h0.remove(b).remove(a) =~= h0.remove(a).remove(b));
+    }
+    /// the heap changed only at r's worktop bucket `a` (still a good bucket of r) and at a bucket `nb` that
+    /// was not live before: the worktop invariant is kept
+    pub proof fn lemma_wf_keep(f: Fields, h0: Buckets, h1: Buckets, r: ResourceAddress, a: Own, nb: Own)
+        requires
+            wf(f, h0), wt(f).contains_key(r), wt(f)[r] == a, !h0.contains_key(nb), frame2(h0, h1, a, nb),
+            h1.contains_key(a), h1[a].resource == r, h1[a].amount > 0, bucket_inv(h1[a]),
+        ensures wf(f, h1)
+    {
+        assert forall|r2: ResourceAddress| #[trigger] wt(f).contains_key(r2) implies
+            h1.contains_key(wt(f)[r2]) && h1[wt(f)[r2]].resource == r2 && h1[wt(f)[r2]].amount > 0 && bucket_inv(h1[wt(f)[r2]])
+        by {
+            if r2 != r { lemma_frame2(h0, h1, a, nb, wt(f)[r2]); }
+        }
+    }
+    /// a bucket that was not live appears (or nothing changes at all): the worktop invariant is kept
+    pub proof fn lemma_wf_fresh(f: Fields, h0: Buckets, h1: Buckets, nb: Own)
+        requires wf(f, h0), !h0.contains_key(nb), h1 == h0.insert(nb, h1[nb])
+        ensures wf(f, h1)
+    {
+        assert forall|r2: ResourceAddress| #[trigger] wt(f).contains_key(r2) implies
+            h1.contains_key(wt(f)[r2]) && h1[wt(f)[r2]].resource == r2 && h1[wt(f)[r2]].amount > 0 && bucket_inv(h1[wt(f)[r2]])
+        by { assert(wt(f)[r2] != nb); }
+    }
+    /// an entry leaves the worktop, the heap is untouched: the worktop invariant is kept
+    pub proof fn lemma_wf_remove(f0: Fields, f1: Fields, h: Buckets, r: ResourceAddress)
+        requires wf(f0, h), f1 == f0.insert(I_WORKTOP(), Wire::Worktop(wt(f0).remove(r)))
+        ensures wf(f1, h)
+    {
+        assert(wt(f1) == wt(f0).remove(r));
+        assert forall|r2: ResourceAddress| #[trigger] wt(f1).contains_key(r2) implies
+            h.contains_key(wt(f1)[r2]) && h[wt(f1)[r2]].resource == r2 && h[wt(f1)[r2]].amount > 0 && bucket_inv(h[wt(f1)[r2]])
+        by { assert(wt(f0).contains_key(r2)); }
+    }
+
+    /// set arithmetic behind the non-fungible side of bucket_inv
+    pub proof fn lemma_nf_split(old_ids: Set<Id>, ids: Set<Id>)
+        requires ids.subset_of(old_ids)
+        ensures
+            old_ids.difference(ids).len() == old_ids.len() - ids.len(),
+            old_ids.difference(ids).len() * one18() == old_ids.len() * one18() - ids.len() * one18(),
+            old_ids.len() == ids.len() ==> old_ids =~= ids,
+    {
+        vstd::set_lib::lemma_set_difference_len(old_ids, ids);
+        assert(old_ids.intersect(ids) =~= ids);
+        let a = old_ids.difference(ids).len() as int; let b = ids.len() as int; let c = one18();
+        assert((a + b) * c == a * c + b * c) by (nonlinear_arith);
+        if old_ids.len() == ids.len() { vstd::set_lib::lemma_subset_equality(ids, old_ids); }
+    }
+    pub proof fn lemma_nf_merge(x: Set<Id>, y: Set<Id>)
+        requires x.disjoint(y)
+        ensures x.union(y).len() * one18() == x.len() * one18() + y.len() * one18()
+    {
+        vstd::set_lib::lemma_set_disjoint_lens(x, y);
+        let a = x.len() as int; let b = y.len() as int; let c = one18();
+        assert((a + b) * c == a * c + b * c) by (nonlinear_arith);
+    }
+    /// an empty bucket `gone` that is not on the worktop is dropped: the worktop invariant is kept
+    pub proof fn lemma_wf_drop_other(f: Fields, h0: Buckets, gone: Own)
+        requires wf(f, h0), h0[gone].amount == 0
+        ensures wf(f, h0.remove(gone))
+    {
+        let h1 = h0.remove(gone);
+        assert forall|r2: ResourceAddress| #[trigger] wt(f).contains_key(r2) implies
+            h1.contains_key(wt(f)[r2]) && h1[wt(f)[r2]].resource == r2 && h1[wt(f)[r2]].amount > 0 && bucket_inv(h1[wt(f)[r2]])
+        by { assert(wt(f)[r2] != gone); }
+    }
+    /// a live bucket of a resource that is not on the worktop is filed under its resource
+    pub proof fn lemma_wf_insert(f0: Fields, f1: Fields, h: Buckets, r: ResourceAddress, b: Own)
+        requires wf(f0, h), !wt(f0).contains_key(r), h.contains_key(b), h[b].resource == r, h[b].amount > 0, bucket_inv(h[b]),
+                 f1 == f0.insert(I_WORKTOP(), Wire::Worktop(wt(f0).insert(r, b)))
+        ensures wf(f1, h)
+    {
+        assert(wt(f1) == wt(f0).insert(r, b));
+        assert forall|r2: ResourceAddress| #[trigger] wt(f1).contains_key(r2) implies
+            h.contains_key(wt(f1)[r2]) && h[wt(f1)[r2]].resource == r2 && h[wt(f1)[r2]].amount > 0 && bucket_inv(h[wt(f1)[r2]])
+        by { if r2 != r { assert(wt(f0).contains_key(r2)); } }
+    }
+    /// `other` is merged into r's worktop bucket `a`
+    pub proof fn lemma_wf_merge(f: Fields, h0: Buckets, h1: Buckets, r: ResourceAddress, a: Own, other: Own)
+        requires
+            wf(f, h0), wt(f).contains_key(r), wt(f)[r] == a, a != other, h0.contains_key(other), h0[other].resource == r,
+            h1 == h0.remove(other).insert(a, h1[a]), h1[a].resource == r, h1[a].amount > 0, bucket_inv(h1[a]),
+        ensures wf(f, h1), frame2(h0, h1, other, a)
+    {
+        assert forall|r2: ResourceAddress| #[trigger] wt(f).contains_key(r2) implies
+            h1.contains_key(wt(f)[r2]) && h1[wt(f)[r2]].resource == r2 && h1[wt(f)[r2]].amount > 0 && bucket_inv(h1[wt(f)[r2]])
+        by { if r2 != r { assert(wt(f)[r2] != a); assert(wt(f)[r2] != other); } }
+    }
+    /// the drained buckets: each worktop entry exactly once
+    pub open spec fn is_drain_of(s: Seq<Own>, w: WMap, h: Buckets) -> bool {
+        &&& s.no_duplicates()
+        &&& s.len() == w.dom().len()
+        // every worktop bucket is returned ...
+        &&& forall|r: ResourceAddress| w.contains_key(r) ==> s.contains(#[trigger] w[r])
+        // ... and nothing else: each returned bucket is the worktop's bucket of its own resource
+        &&& forall|i: int| 0 <= i < s.len() ==> w.contains_key(h[#[trigger] s[i]].resource) && w[h[s[i]].resource] == s[i]
+    }
+    pub proof fn lemma_drain(m: &IndexMap<ResourceAddress, Own>, f: Fields, h: Buckets)
+        requires wf(f, h), wt(f) == m@
+        ensures is_drain_of(m.val_order(), m@, h)
+    {
+        let ks = m.key_order(); let s = m.val_order(); let w = m@;
+        ks.unique_seq_to_set();
+        assert forall|i: int| 0 <= i < ks.len() implies w.contains_key(#[trigger] ks[i]) by {
+            assert(ks.to_set().contains(ks[i]));
+        }
+        assert forall|i: int, j: int| 0 <= i < s.len() && 0 <= j < s.len() && i != j implies s[i] != s[j] by {
+            assert(wt(f).contains_key(ks[i]) && wt(f).contains_key(ks[j]));
+            assert(h[w[ks[i]]].resource == ks[i] && h[w[ks[j]]].resource == ks[j]);
+        }
+        assert forall|r: ResourceAddress| w.contains_key(r) implies s.contains(#[trigger] w[r]) by {
+            assert(ks.to_set().contains(r));
+            let i = choose|i: int| 0 <= i < ks.len() && ks[i] == r;
+            assert(s[i] == w[r]);
+        }
+        assert forall|i: int| 0 <= i < s.len() implies w.contains_key(h[#[trigger] s[i]].resource) && w[h[s[i]].resource] == s[i] by {
+            assert(wt(f).contains_key(ks[i]) && w[ks[i]] == s[i]);
+        }
+    }
+
+    /// structural part of the worktop invariant (all that `drop` needs): entries are live buckets of their resource
+    pub open spec fn wf_struct(f: Fields, h: Buckets) -> bool {
+        &&& f.contains_key(I_WORKTOP()) && f[I_WORKTOP()] is Worktop
+        &&& forall|r: ResourceAddress| #[trigger] wt(f).contains_key(r) ==> h.contains_key(wt(f)[r]) && h[wt(f)[r]].resource == r
+    }
+    /// bucket `o` is one of the worktop's buckets
+    pub open spec fn is_worktop_bucket(w: WMap, h: Buckets, o: Own) -> bool {
+        h.contains_key(o) && w.contains_key(h[o].resource) && w[h[o].resource] == o
+    }
+    /// `drop` succeeded: EVERY worktop bucket went through drop_empty (so it was empty, and is gone), and no other
+    /// bucket was touched
+    pub open spec fn dropped_all(w0: WMap, h0: Buckets, h1: Buckets) -> bool {
+        &&& forall|r: ResourceAddress| #[trigger] w0.contains_key(r) ==> h0[w0[r]].amount == 0 && !h1.contains_key(w0[r])
+        &&& forall|o: Own| #[trigger] h1.contains_key(o) <==> h0.contains_key(o) && !is_worktop_bucket(w0, h0, o)
+        &&& forall|o: Own| #[trigger] h1.contains_key(o) ==> h1[o] == h0[o]
+    }
+    /// loop invariant of `drop` after k entries
+    pub open spec fn drop_inv(es: Seq<(ResourceAddress, Own)>, k: int, w0: WMap, h0: Buckets, hc: Buckets, dropped: Set<Own>) -> bool {
+        &&& hc =~= h0.remove_keys(dropped)
+        &&& forall|o: Own| #[trigger] dropped.contains(o) ==> is_worktop_bucket(w0, h0, o) && h0[o].amount == 0
+        &&& forall|i: int| 0 <= i < k ==> dropped.contains((#[trigger] es[i]).1)
+    }
+    pub proof fn lemma_drop_done(m: IndexMap<ResourceAddress, Own>, f: Fields, h0: Buckets, h1: Buckets, dropped: Set<Own>)
+        requires wf_struct(f, h0), wt(f) == m@, drop_inv(entry_order(m), entry_order(m).len() as int, m@, h0, h1, dropped)
+        ensures dropped_all(m@, h0, h1), wf(f, h0) ==> m@ =~= Map::<ResourceAddress, Own>::empty()
+    {
+        let ks = m.key_order(); let es = entry_order(m); let w = m@;
+        assert forall|r: ResourceAddress| #[trigger] w.contains_key(r) implies h0[w[r]].amount == 0 && !h1.contains_key(w[r]) by {
+            assert(ks.to_set().contains(r));
+            let i = choose|i: int| 0 <= i < ks.len() && ks[i] == r;
+            assert(es[i].1 == w[r]);
+            assert(dropped.contains(es[i].1));
+        }
+        assert forall|o: Own| #[trigger] h1.contains_key(o) <==> h0.contains_key(o) && !is_worktop_bucket(w, h0, o) by {
+            if h0.contains_key(o) && is_worktop_bucket(w, h0, o) { assert(w.contains_key(h0[o].resource)); }
+        }
+        if wf(f, h0) {
+            assert forall|r: ResourceAddress| !w.contains_key(r) by { if w.contains_key(r) { assert(wt(f).contains_key(r)); } }
+        }
+    }
+
     impl WorktopBlueprint {
+        // loop_isolation(false): the loop body may use the facts established before the loop (here: that the
+        // parameter `input`, shadowed by its decoded value, did decode)
+        #[verifier::loop_isolation(false)]
+        /*@fn radix-engine/src/blueprints/resource/worktop.rs :: impl WorktopBlueprint :: fn drop
+        @sig
+            requires wf_struct(old(api).fields(), old(api).buckets())
+            ensures
+                decode::<WorktopDropInput>(*input) matches Err(e) ==> ret == Err::<IndexedScryptoValue, RuntimeError>(err_decode(e))
+                    && untouched::<Y, RuntimeError>(old(api), final(api)),
+                decode::<WorktopDropInput>(*input) matches Ok(i) ==> ({
+                    let w0 = wt(old(api).fields()); let h0 = old(api).buckets(); let h1 = final(api).buckets();
+                    // Ok ==> every bucket of the worktop went through drop_empty (the loop visits all entries), nothing else touched
+                    &&& ret matches Ok(v) ==> v.wire() is Unit && i.worktop.0.0 == old(api).worktop_node() && dropped_all(w0, h0, h1)
+                    // C09 "leftover resources on the worktop make the transaction fail": with the worktop invariant
+                    // (no empty buckets) `drop` succeeds only on an EMPTY worktop
+                    &&& wf(old(api).fields(), h0) && ret is Ok ==> w0 =~= Map::<ResourceAddress, Own>::empty()
+                    &&& ret matches Err(e) ==> !e.is_worktop_error()
+                }),
+        @closure 1 := |e: DecodeError| -> (r: RuntimeError) ensures r == err_decode(e)
+        @entry
+            let ghost input0 = *input;
+        @before <<for (_, bucket) in resources>> #1
+            let ghost es = entry_order(resources);
+            let ghost res0 = resources;
+            let ghost mut dropped: Set<Own> = Set::empty();
+            let ghost h0 = old(api).buckets();
+        @loop 1 iter it
+            invariant
+                it.seq() == es, decode::<WorktopDropInput>(input0) is Ok,
+                es == entry_order(res0), res0@ == wt(old(api).fields()), h0 == old(api).buckets(),
+                wf_struct(old(api).fields(), h0),
+                drop_inv(es, it.index@ as int, res0@, h0, api.buckets(), dropped),
+        @after <<bucket.drop_empty(api)?>> #1
+            proof {
+                let o = es[it.index@ as int].1;
+                assert(res0@.contains_key(es[it.index@ as int].0)) by {
+                    assert(res0.key_order().to_set().contains(res0.key_order()[it.index@ as int]));
+                }
+                assert(wt(old(api).fields()).contains_key(es[it.index@ as int].0));
+                dropped = dropped.insert(o);
+            }
+        @before <<api.drop_object(>> #1
+            proof { lemma_drop_done(res0, old(api).fields(), h0, api.buckets(), dropped); }
+        @*/
+
         /*@fn radix-engine/src/blueprints/resource/worktop.rs :: impl WorktopBlueprint :: fn take
         @sig
             requires wf(old(api).fields(), old(api).buckets())
@@ -185,11 +434,236 @@ pub mod unit {
                     &&& a > on_worktop(w0, h0, r) ==> ret is Err
                     // the only refusal of the worktop itself is InsufficientBalance, exactly when more than held is asked
                     // (or a negative amount of a resource that is not there), and then nothing has been touched
-                    &&& ret matches Err(e) && e.is_worktop_error() ==> e == err_insufficient()
+                    &&& ret matches Err(e) ==> (e.is_worktop_error() ==> e == err_insufficient()
                             && a != 0 && (a > on_worktop(w0, h0, r) || (a < 0 && !w0.contains_key(r)))
-                            && final(api).fields() == old(api).fields() && h1 == h0
+                            && final(api).fields() == old(api).fields() && h1 == h0)
                 }),
         @closure 1 := |e: DecodeError| -> (r: RuntimeError) ensures r == err_decode(e)
+        @before <<Ok(IndexedScryptoValue::from_typed(&bucket))>> #1
+            proof {
+                lemma_wf_fresh(api.fields(), old(api).buckets(), api.buckets(), bucket.0);
+                assert(took(wt(old(api).fields()), old(api).buckets(), wt(api.fields()), api.buckets(), resource_address, bucket.0));
+            }
+        @before <<Ok(IndexedScryptoValue::from_typed(&existing_bucket))>> #1
+            proof {
+                lemma_wf_remove(old(api).fields(), api.fields(), api.buckets(), resource_address);
+                assert(took(wt(old(api).fields()), old(api).buckets(), wt(api.fields()), api.buckets(), resource_address, existing_bucket.0));
+            }
+        @before <<Ok(IndexedScryptoValue::from_typed(&bucket))>> #2
+            proof {
+                lemma_frame2_sym(old(api).buckets(), api.buckets(), existing_bucket.0, bucket.0);
+                lemma_wf_keep(api.fields(), old(api).buckets(), api.buckets(), resource_address, existing_bucket.0, bucket.0);
+                assert(took(wt(old(api).fields()), old(api).buckets(), wt(api.fields()), api.buckets(), resource_address, bucket.0));
+            }
+        @*/
+
+        /*@fn radix-engine/src/blueprints/resource/worktop.rs :: impl WorktopBlueprint :: fn take_non_fungibles
+        @sig
+            requires wf(old(api).fields(), old(api).buckets())
+            ensures
+                decode::<WorktopTakeNonFungiblesInput>(*input) matches Err(e) ==> ret == Err::<IndexedScryptoValue, RuntimeError>(err_decode(e))
+                    && untouched::<Y, RuntimeError>(old(api), final(api)),
+                decode::<WorktopTakeNonFungiblesInput>(*input) matches Ok(i) ==> ({
+                    let r = i.resource_address; let ids = i.ids@;
+                    let w0 = wt(old(api).fields()); let h0 = old(api).buckets();
+                    let w1 = wt(final(api).fields()); let h1 = final(api).buckets();
+                    // Ok ==> the returned bucket holds exactly the ids asked for, they (and their amount) left r's worktop
+                    // bucket, nothing else changes
+                    &&& ret matches Ok(v) ==> (v.wire() matches Wire::Own(b) && took(w0, h0, w1, h1, r, b) && h1[b].ids =~= ids
+                            && ids.subset_of(ids_on_worktop(w0, h0, r))
+                            && wf(final(api).fields(), h1) && fields_frame(old(api).fields(), final(api).fields())
+                            && final(api).handles() =~= old(api).handles())
+                    // an id that is not held ==> Err
+                    &&& !ids.subset_of(ids_on_worktop(w0, h0, r)) ==> ret is Err
+                    // the only refusal of the worktop itself is InsufficientBalance, exactly when an id is not held
+                    &&& ret matches Err(e) ==> (e.is_worktop_error() ==> e == err_insufficient()
+                            && !ids.subset_of(ids_on_worktop(w0, h0, r))
+                            && final(api).fields() == old(api).fields() && h1 == h0)
+                }),
+        @closure 1 := |e: DecodeError| -> (r: RuntimeError) ensures r == err_decode(e)
+        @before <<Ok(IndexedScryptoValue::from_typed(&bucket))>> #1
+            proof {
+                lemma_wf_fresh(api.fields(), old(api).buckets(), api.buckets(), bucket.0);
+                assert(took(wt(old(api).fields()), old(api).buckets(), wt(api.fields()), api.buckets(), resource_address, bucket.0));
+            }
+        @before <<let existing_bucket>> #1
+            proof {
+                // a non-empty set of ids is not contained in the (empty) holding of an absent resource
+                if ids@.subset_of(Set::<Id>::empty()) { assert(ids@ =~= Set::<Id>::empty()); }
+            }
+        @before <<if !existing_non_fungibles.is_superset(&ids)>> #1
+            proof {
+                if ids@.subset_of(existing_non_fungibles@) { lemma_nf_split(existing_non_fungibles@, ids@); }
+            }
+        @before <<Ok(IndexedScryptoValue::from_typed(&existing_bucket))>> #1
+            proof {
+                lemma_wf_remove(old(api).fields(), api.fields(), api.buckets(), resource_address);
+                assert(took(wt(old(api).fields()), old(api).buckets(), wt(api.fields()), api.buckets(), resource_address, existing_bucket.0));
+            }
+        @before <<Ok(IndexedScryptoValue::from_typed(&bucket))>> #2
+            proof {
+                lemma_frame2_sym(old(api).buckets(), api.buckets(), existing_bucket.0, bucket.0.0);
+                lemma_wf_keep(api.fields(), old(api).buckets(), api.buckets(), resource_address, existing_bucket.0, bucket.0.0);
+                assert(took(wt(old(api).fields()), old(api).buckets(), wt(api.fields()), api.buckets(), resource_address, bucket.0.0));
+            }
+        @*/
+
+        /*@fn radix-engine/src/blueprints/resource/worktop.rs :: impl WorktopBlueprint :: fn take_all
+        @sig
+            requires wf(old(api).fields(), old(api).buckets())
+            ensures
+                decode::<WorktopTakeAllInput>(*input) matches Err(e) ==> ret == Err::<IndexedScryptoValue, RuntimeError>(err_decode(e))
+                    && untouched::<Y, RuntimeError>(old(api), final(api)),
+                decode::<WorktopTakeAllInput>(*input) matches Ok(i) ==> ({
+                    let r = i.resource_address;
+                    let w0 = wt(old(api).fields()); let h0 = old(api).buckets();
+                    let w1 = wt(final(api).fields()); let h1 = final(api).buckets();
+                    // Ok ==> the returned bucket holds everything the worktop held of r, and r's entry is gone
+                    &&& ret matches Ok(v) ==> (v.wire() matches Wire::Own(b) && took(w0, h0, w1, h1, r, b)
+                            && h1[b].amount == on_worktop(w0, h0, r) && h1[b].ids =~= ids_on_worktop(w0, h0, r)
+                            && !w1.contains_key(r)
+                            && wf(final(api).fields(), h1) && fields_frame(old(api).fields(), final(api).fields())
+                            && final(api).handles() =~= old(api).handles())
+                    // the worktop itself never refuses
+                    &&& ret matches Err(e) ==> !e.is_worktop_error()
+                }),
+        @closure 1 := |e: DecodeError| -> (r: RuntimeError) ensures r == err_decode(e)
+        @before <<Ok(IndexedScryptoValue::from_typed(&bucket))>> #1
+            proof {
+                lemma_wf_remove(old(api).fields(), api.fields(), api.buckets(), input.resource_address);
+                assert(took(wt(old(api).fields()), old(api).buckets(), wt(api.fields()), api.buckets(), input.resource_address, bucket));
+            }
+        @before <<Ok(IndexedScryptoValue::from_typed(&bucket))>> #2
+            proof {
+                lemma_wf_fresh(api.fields(), old(api).buckets(), api.buckets(), bucket.0);
+                assert(took(wt(old(api).fields()), old(api).buckets(), wt(api.fields()), api.buckets(), input.resource_address, bucket.0));
+            }
+        @*/
+
+        /*@fn radix-engine/src/blueprints/resource/worktop.rs :: impl WorktopBlueprint :: fn drain
+        @sig
+            requires wf(old(api).fields(), old(api).buckets())
+            ensures
+                decode::<WorktopDrainInput>(*input) matches Err(e) ==> ret == Err::<IndexedScryptoValue, RuntimeError>(err_decode(e))
+                    && untouched::<Y, RuntimeError>(old(api), final(api)),
+                final(api).buckets() == old(api).buckets(),
+                // Ok ==> every worktop bucket is returned exactly once, the worktop is empty, no bucket is touched
+                ret matches Ok(v) ==> (v.wire() matches Wire::Owns(s) && is_drain_of(s, wt(old(api).fields()), old(api).buckets())
+                        && wt(final(api).fields()) =~= Map::<ResourceAddress, Own>::empty()
+                        && wf(final(api).fields(), final(api).buckets()) && fields_frame(old(api).fields(), final(api).fields())
+                        && final(api).handles() =~= old(api).handles()),
+                ret matches Err(e) ==> (e.is_worktop_error() ==> false),
+        @closure 1 := |e: DecodeError| -> (r: RuntimeError) ensures r == err_decode(e)
+        @before <<worktop.resources.clear()>> #1
+            proof { lemma_drain(&worktop.resources, api.fields(), api.buckets()); }
+        @*/
+
+        /*@fn radix-engine/src/blueprints/resource/worktop.rs :: impl WorktopBlueprint :: fn put
+        @sig
+            requires wf(old(api).fields(), old(api).buckets())
+            ensures
+                decode::<WorktopPutInput>(*input) matches Err(e) ==> ret == Err::<IndexedScryptoValue, RuntimeError>(err_decode(e))
+                    && untouched::<Y, RuntimeError>(old(api), final(api)),
+                decode::<WorktopPutInput>(*input) matches Ok(i) ==> ({
+                    let bk = i.bucket.0;
+                    let w0 = wt(old(api).fields()); let h0 = old(api).buckets();
+                    let w1 = wt(final(api).fields()); let h1 = final(api).buckets();
+                    let r = h0[bk].resource;
+                    &&& ret matches Ok(v) ==> (v.wire() is Unit && h0.contains_key(bk)
+                            // put adds exactly the bucket's amount (and ids) to the worktop's holding of its resource
+                            && on_worktop(w1, h1, r) == on_worktop(w0, h0, r) + h0[bk].amount
+                            && ids_on_worktop(w1, h1, r) =~= ids_on_worktop(w0, h0, r).union(h0[bk].ids)
+                            // nothing else changes
+                            && w1.remove(r) =~= w0.remove(r)
+                            && (w0.contains_key(r) ==> w1.contains_key(r) && w1[r] == w0[r])
+                            && frame2(h0, h1, bk, if w0.contains_key(r) { w0[r] } else { bk })
+                            // the bucket is now r's worktop bucket, or it no longer exists (merged into it / dropped empty)
+                            && ((w1.contains_key(r) && w1[r] == bk && !w0.contains_key(r) && h1 == h0) || !h1.contains_key(bk))
+                            && wf(final(api).fields(), h1) && fields_frame(old(api).fields(), final(api).fields())
+                            && final(api).handles() =~= old(api).handles())
+                    // the worktop itself never refuses
+                    &&& ret matches Err(e) ==> !e.is_worktop_error()
+                }),
+        @closure 1 := |e: DecodeError| -> (r: RuntimeError) ensures r == err_decode(e)
+        @before <<let resource_address>> #1
+            let ghost bk = input.bucket.0;
+        @before <<Ok(IndexedScryptoValue::from_typed(&()))>> #1
+            proof {
+                // the empty bucket was not a worktop bucket (those are non-empty): dropping it leaves the worktop as it was
+                lemma_wf_drop_other(api.fields(), old(api).buckets(), bk);
+                if wt(api.fields()).contains_key(resource_address) { assert(wt(api.fields())[resource_address] != bk); }
+            }
+        @after <<Bucket(own).put(input.bucket, api)?>> #1
+            proof {
+                let h0 = old(api).buckets();
+                lemma_nf_merge(h0[own].ids, h0[bk].ids);
+                lemma_wf_merge(api.fields(), h0, api.buckets(), resource_address, own, bk);
+            }
+        @after <<api.field_write_typed(worktop_handle, &worktop)?>> #1
+            proof {
+                lemma_wf_insert(old(api).fields(), api.fields(), api.buckets(), resource_address, bk);
+            }
+        @*/
+
+        /*@fn radix-engine/src/blueprints/resource/worktop.rs :: impl WorktopBlueprint :: fn assert_contains
+        @sig
+            requires wf(old(api).fields(), old(api).buckets())
+            ensures
+                decode::<WorktopAssertContainsInput>(*input) matches Err(e) ==> ret == Err::<IndexedScryptoValue, RuntimeError>(err_decode(e))
+                    && untouched::<Y, RuntimeError>(old(api), final(api)),
+                // an assertion changes nothing
+                final(api).fields() == old(api).fields(), final(api).buckets() == old(api).buckets(),
+                decode::<WorktopAssertContainsInput>(*input) matches Ok(i) ==> ({
+                    let held = on_worktop(wt(old(api).fields()), old(api).buckets(), i.resource_address);
+                    // Ok <==> the worktop holds a non-zero amount of r   (Ok ==> cond; !cond ==> Err; own error ==> !cond)
+                    &&& ret matches Ok(v) ==> held > 0 && v.wire() is Unit && final(api).handles() =~= old(api).handles()
+                    &&& held == 0 ==> ret is Err
+                    &&& ret matches Err(e) ==> (e.is_worktop_error() ==> held == 0
+                            && e == err_assertion(i.resource_address, ResourceConstraintError::ExpectedNonZeroAmount))
+                }),
+        @closure 1 := |e: DecodeError| -> (r: RuntimeError) ensures r == err_decode(e)
+        @*/
+
+        /*@fn radix-engine/src/blueprints/resource/worktop.rs :: impl WorktopBlueprint :: fn assert_contains_amount
+        @sig
+            requires wf(old(api).fields(), old(api).buckets())
+            ensures
+                decode::<WorktopAssertContainsAmountInput>(*input) matches Err(e) ==> ret == Err::<IndexedScryptoValue, RuntimeError>(err_decode(e))
+                    && untouched::<Y, RuntimeError>(old(api), final(api)),
+                final(api).fields() == old(api).fields(), final(api).buckets() == old(api).buckets(),
+                decode::<WorktopAssertContainsAmountInput>(*input) matches Ok(i) ==> ({
+                    let held = on_worktop(wt(old(api).fields()), old(api).buckets(), i.resource_address);
+                    // Ok <==> held >= asserted amount
+                    &&& ret matches Ok(v) ==> held >= i.amount.v() && v.wire() is Unit && final(api).handles() =~= old(api).handles()
+                    &&& held < i.amount.v() ==> ret is Err
+                    &&& ret matches Err(e) ==> (e.is_worktop_error() ==> held < i.amount.v()
+                            && e == err_assertion(i.resource_address, ResourceConstraintError::ExpectedAtLeastAmount {
+                                    expected_at_least_amount: i.amount, actual_amount: Decimal::of(held) }))
+                }),
+        @closure 1 := |e: DecodeError| -> (r: RuntimeError) ensures r == err_decode(e)
+        @before <<let worktop_error>> #1
+            proof { assert(Decimal::of(amount.v()).v() == amount.v()); assert(Decimal::of(amount.v()) == amount); }
+        @*/
+
+        /*@fn radix-engine/src/blueprints/resource/worktop.rs :: impl WorktopBlueprint :: fn assert_contains_non_fungibles
+        @sig
+            requires wf(old(api).fields(), old(api).buckets())
+            ensures
+                decode::<WorktopAssertContainsNonFungiblesInput>(*input) matches Err(e) ==> ret == Err::<IndexedScryptoValue, RuntimeError>(err_decode(e))
+                    && untouched::<Y, RuntimeError>(old(api), final(api)),
+                final(api).fields() == old(api).fields(), final(api).buckets() == old(api).buckets(),
+                decode::<WorktopAssertContainsNonFungiblesInput>(*input) matches Ok(i) ==> ({
+                    let held = ids_on_worktop(wt(old(api).fields()), old(api).buckets(), i.resource_address);
+                    // Ok <==> every asserted id is held
+                    &&& ret matches Ok(v) ==> i.ids@.subset_of(held) && v.wire() is Unit && final(api).handles() =~= old(api).handles()
+                    &&& !i.ids@.subset_of(held) ==> ret is Err
+                    &&& ret matches Err(e) ==> (e.is_worktop_error() ==> (missing_of(e) matches Some(rm)
+                            && rm.0 == i.resource_address && i.ids@.contains(rm.1) && !held.contains(rm.1)))
+                }),
+        @closure 1 := |e: DecodeError| -> (r: RuntimeError) ensures r == err_decode(e)
+        @before <<let worktop_error>> #1
+            let ghost m0 = *missing_id;
+            proof { assert(input.ids@.contains(m0) && !bucket_ids@.contains(m0)); }
         @*/
     }
 }
